@@ -54,6 +54,8 @@ impl Pool {
                         #[cfg(feature = "tracing")]
                         tracing::trace!("running cleanup tasks");
 
+                        #[cfg(feature = "verif-hooks")]
+                        crate::verif_hooks::point("maint.scan.lock");
                         #[allow(clippy::needless_collect)]
                         let (count, dropped) = {
                             let mut connections = pool.connections.lock().unwrap();
@@ -76,6 +78,8 @@ impl Pool {
 
                             (connections.len(), dropped)
                         };
+                        #[cfg(feature = "verif-hooks")]
+                        crate::verif_hooks::point("maint.scan.unlock");
 
                         #[cfg(feature = "tracing")]
                         let mut created = 0;
@@ -92,6 +96,8 @@ impl Pool {
                                 }
                             };
 
+                            #[cfg(feature = "verif-hooks")]
+                            crate::verif_hooks::point("maint.push.lock");
                             let mut connections = pool.connections.lock().unwrap();
                             let Some(connections) = connections.as_mut() else {
                                 // The transport was shut down
@@ -123,6 +129,8 @@ impl Pool {
 
                         drop(pool);
 
+                        #[cfg(feature = "verif-hooks")]
+                        crate::verif_hooks::point("maint.sleep");
                         match thread_rx.recv_timeout(idle_timeout) {
                             Ok(()) | Err(mpsc::RecvTimeoutError::Disconnected) => {
                                 // The transport was shut down
@@ -139,6 +147,8 @@ impl Pool {
     }
 
     pub(crate) fn shutdown(&self) {
+        #[cfg(feature = "verif-hooks")]
+        crate::verif_hooks::point("shutdown.lock");
         let connections = { self.connections.lock().unwrap().take() };
         if let Some(connections) = connections {
             for conn in connections {
@@ -151,6 +161,8 @@ impl Pool {
 
     pub(crate) fn connection(self: &Arc<Self>) -> Result<PooledConnection, Error> {
         loop {
+            #[cfg(feature = "verif-hooks")]
+            crate::verif_hooks::point("connection.lock");
             let conn = {
                 let mut connections = self.connections.lock().unwrap();
                 let Some(connections) = connections.as_mut() else {
@@ -190,6 +202,8 @@ impl Pool {
     }
 
     fn recycle(&self, mut conn: SmtpConnection) {
+        #[cfg(feature = "verif-hooks")]
+        crate::verif_hooks::point("recycle.begin");
         if conn.has_broken() {
             #[cfg(feature = "tracing")]
             tracing::debug!("dropping a broken connection instead of recycling it");
@@ -200,6 +214,8 @@ impl Pool {
             #[cfg(feature = "tracing")]
             tracing::debug!("recycling connection");
 
+            #[cfg(feature = "verif-hooks")]
+            crate::verif_hooks::point("recycle.lock");
             let mut connections_guard = self.connections.lock().unwrap();
 
             if let Some(connections) = connections_guard.as_mut() {
@@ -216,6 +232,8 @@ impl Pool {
                 conn.abort();
             }
         }
+        #[cfg(feature = "verif-hooks")]
+        crate::verif_hooks::point("recycle.end");
     }
 }
 
